@@ -96,6 +96,9 @@ type config struct {
 	// Faulty, when set, restricts the members that may deviate to this set (all its subsets of
 	// size <= f are explored); empty = any member may deviate (all subsets of the committee).
 	Faulty []int `json:"faulty_candidates,omitempty"`
+	// HonestInOrder restricts the members outside Faulty to deliver their (single, correct) message in
+	// ascending id order; the candidates' messages still interleave with them in every possible way.
+	HonestInOrder bool `json:"honest_in_id_order,omitempty"`
 }
 
 func (c config) f() int { return (c.N - 1) / 3 }
@@ -108,6 +111,9 @@ func (c config) String() string {
 	fs := "any member"
 	if len(c.Faulty) > 0 {
 		fs = fmt.Sprintf("members %v", c.Faulty)
+	}
+	if c.HonestInOrder {
+		fs += ", other members deliver in id order"
 	}
 	return fmt.Sprintf("role=%s n=%d f=%d prefix=%s faulty-candidates=%s bad-kinds=[%s]", c.Role, c.N, c.f(), c.Mode, fs, strings.Join(ks, ","))
 }
@@ -269,8 +275,17 @@ func (x *explorer) masks() []uint8 {
 func (x *explorer) menu(h hstate) []event {
 	var out []event
 	_, ndev := h.devSet()
+	blocked := false // HonestInOrder: a lower non-candidate member has not delivered yet
 	for i := 1; i <= x.cfg.N; i++ {
 		c := h.count(i)
+		if x.cfg.HonestInOrder && !x.candidate(i) {
+			if blocked {
+				continue
+			}
+			if c == 0 {
+				blocked = true
+			}
+		}
 		if c >= 2 {
 			continue
 		}
@@ -614,21 +629,26 @@ func main() {
 		}
 		cfgs = append(cfgs, config{Role: run5.Attester, N: 4, Mode: run5.ByDecided, Kinds: all})
 		cfgs = append(cfgs, config{Role: run5.Contribution, N: 4, Mode: run5.ByMessages, Kinds: reduced})
-		for _, role := range []string{run5.Attester, run5.Proposer, run5.VoluntaryExit, run5.Registration} {
+		for _, role := range []string{run5.Attester, run5.VoluntaryExit, run5.Registration} {
 			cfgs = append(cfgs, config{Role: role, N: 7, Mode: run5.ByMessages, Kinds: base})
 		}
 		// n=10, 13: the full product over all faulty subsets is 3*10^6 states at n=10 already; explored instead:
-		// two fixed maximal faulty sets (one containing the runner's own operator id, one not) with all their
-		// subsets, mutation kinds reduced to the two that are stored in the container, and a state cap.
+		// fixed candidate sets of faulty members (one containing the runner's own operator id, one not) with all
+		// their subsets, mutation kinds reduced to the two that are stored in the container, and a state cap;
+		// n=13 with all f=4 faulty members only with the other members delivering in id order, and with every
+		// arrival order for 2 faulty candidates.
 		cfgs = append(cfgs, config{Role: run5.Attester, N: 10, Mode: run5.ByDecided, Kinds: reduced, Cap: 400000, Faulty: []int{8, 9, 10}})
 		cfgs = append(cfgs, config{Role: run5.Attester, N: 10, Mode: run5.ByDecided, Kinds: reduced, Cap: 400000, Faulty: []int{1, 2, 3}})
-		cfgs = append(cfgs, config{Role: run5.Attester, N: 13, Mode: run5.ByDecided, Kinds: reduced, Cap: 400000, Faulty: []int{10, 11, 12, 13}})
-		cfgs = append(cfgs, config{Role: run5.Attester, N: 13, Mode: run5.ByDecided, Kinds: reduced, Cap: 400000, Faulty: []int{1, 2, 3, 4}})
+		cfgs = append(cfgs, config{Role: run5.Attester, N: 13, Mode: run5.ByDecided, Kinds: reduced, Cap: 400000, Faulty: []int{10, 11, 12, 13}, HonestInOrder: true})
+		cfgs = append(cfgs, config{Role: run5.Attester, N: 13, Mode: run5.ByDecided, Kinds: reduced, Cap: 400000, Faulty: []int{1, 2, 3, 4}, HonestInOrder: true})
+		cfgs = append(cfgs, config{Role: run5.Proposer, N: 7, Mode: run5.ByDecided, Kinds: base})
+		cfgs = append(cfgs, config{Role: run5.Attester, N: 13, Mode: run5.ByDecided, Kinds: reduced, Cap: 400000, Faulty: []int{12, 13}})
+		cfgs = append(cfgs, config{Role: run5.Attester, N: 13, Mode: run5.ByDecided, Kinds: reduced, Cap: 400000, Faulty: []int{1, 2}})
 	}
 	if only := envOr("C05_ONLY", ""); only != "" { // development aid: C05_ONLY=role:n
 		var keep []config
 		for _, c := range cfgs {
-			if fmt.Sprintf("%s:%d", c.Role, c.N) == only {
+			if fmt.Sprintf("%s:%d", c.Role, c.N) == only || fmt.Sprintf("*:%d", c.N) == only {
 				keep = append(keep, c)
 			}
 		}
@@ -662,7 +682,7 @@ func main() {
 		}
 		bounds = append(bounds, map[string]interface{}{
 			"config": c.String(), "objects": len(x.tmpl.Objects), "states": st.States, "transitions": st.Transitions, "depth": st.Depth,
-			"complete": st.Complete, "faulty_sets_reached": len(st.DevSets), "faulty_sets_possible": wantSets,
+			"complete": st.Complete, "every_subset_of_the_committee_may_be_faulty": len(c.Faulty) == 0, "faulty_sets_reached": len(st.DevSets), "faulty_sets_possible": wantSets,
 			"states_with_2f+1_latest_correct": st.ObligedStates, "of_which_all_objects_submitted": st.ObligedDone,
 			"states_2f+1_ever_correct_but_not_latest": st.StrongOnlyStates, "of_which_not_submitted": st.StrongOnlyNotDone,
 			"fresh_runner_replays": st.Builds, "states_with_submission": st.StatesWithSubmission, "states_finished": st.FinishedSt, "max_submissions_in_a_state": st.MaxSubs,
@@ -680,7 +700,9 @@ func main() {
 		"at most f members deviate (every subset is reached, see faulty_sets_reached); a deviating member sends at most two messages (any kind, so bad→good, good→bad and duplicates are covered), a non-deviating member sends its correct message once",
 		"reading of \"2f+1 correct partial signatures have arrived\" (weakest): there are 2f+1 distinct members whose LATEST delivered partial-signature message is entirely correct (right slot, right roots, every share signature valid); a member that replaced a good message by a bad one is not counted, a message with one bad entry does not count for any root. The stronger reading (a member counts once it has ever delivered a correct message) is measured, not asserted: states_2f+1_ever_correct_but_not_latest / of_which_not_submitted",
 		"oracle uses herumi BLS directly on the arguments of Submit*: signature verifies under the validator public key over ComputeETHSigningRoot(decided object, ComputeETHDomain(domain, genesis fork, genesis validators root)), as the spec testing beacon node defines the domain; memoised BLS (bls_memo) is a pure-function cache",
-		"replays are re-validated against the recorded state key (all at n=4, every 8th at n>=7); a mismatch is an engine error",
+		"successor computation: fresh runner + prefix + replay of the state's event path, re-validated against the recorded state key on every build (mismatch = engine error); a runner is reused for the next event of the same state only when the previous event left runner.GetRoot() and the submission log unchanged (rejected message), i.e. when it is still in that very canonical state",
+		"state merging assumes that runner.GetRoot() (JSON of all exported runner state: containers, Finished, decided value, controller and instance) plus the submission log determines future behaviour; unexported runner fields are set by the prefix only",
+		"instance storage is the real ibft store on a private in-memory badger per group of workers; beacon node, network, key manager are the ssv-spec testing doubles (beacon node wrapped by a recorder)",
 	)
 	stopProfile()
 	r.Finish(exhaustive)
